@@ -518,3 +518,5 @@ def check(ctx):
     check_inputs(ctx)
     check_level0_closure(ctx)
     check_table_get(ctx)
+    from . import c04
+    c04.check_write(ctx)       # sequence accounting of the commit group: a mis-stamped write is invisible to reads
